@@ -152,14 +152,60 @@ def k4_diff(seed, n_random=400):
             class _SD(object):
                 is_shutdown = False
             ex._shutdown = _SD()
+
+            class _Room(object):
+                notified = 0
+
+                def notify_all(self):
+                    self.notified += 1
+            ex._room = _Room()
             _G.n = 0
             try:
                 tmod._submit_loop_iter(ex)
-                r = "[%s] [%s] %d %d" % (" ".join(map(str, handed)), " ".join(str(j.fn) for j in ex._to_submit), ex._running_count.value, _G.n)
+                r = "[%s] [%s] %d %d %d" % (" ".join(map(str, handed)), " ".join(str(j.fn) for j in ex._to_submit), ex._running_count.value,
+                                            _G.n, 1 if ex._room.notified else 0)
             except Exception as e:
                 r = "EXC:%s" % type(e).__name__
             lines.append("k4.admission %s %d %s" % ("None" if th is None else th, running, " ".join(map(str, q))))
             py.append(r)
+        # the `while` test of `_block_until_ready`: drive the real method with a stub condition whose wait() records that the
+        # submitter went to sleep and then makes the test false (by emptying the queue), over the full small domain
+        for tv in [None, 0, 1, 2, 3]:
+            for qn in range(0, 5):
+                for sh in (False, True):
+                    ex = tmod.ThrottleExecutor.__new__(tmod.ThrottleExecutor)
+                    ex._log = _NullLog()
+                    ex._name = "k"
+                    ex._block = True
+                    ex._to_submit = collections.deque(range(qn))
+
+                    class _SD2(object):
+                        is_shutdown = sh
+                    ex._shutdown = _SD2()
+
+                    class _Cond(object):
+                        waits = 0
+
+                        def __enter__(self):
+                            return self
+
+                        def __exit__(self, *a):
+                            return False
+
+                        def wait(self, timeout=None):
+                            self.waits += 1
+                            ex._to_submit.clear()
+                            _SD2.is_shutdown = True
+                    ex._room = _Cond()
+                    ex._event = ex._room
+                    ex._thread = object()       # not the calling thread: the differential runs on a submitter's thread
+                    try:
+                        ex._block_until_ready(tv)
+                        r = "1" if ex._room.waits else "0"
+                    except Exception as e:
+                        r = "EXC:%s" % type(e).__name__
+                    lines.append("k4.blockwait %s %d %d" % ("None" if tv is None else tv, qn, 1 if sh else 0))
+                    py.append(r)
     finally:
         tmod.metrics = saved_metrics
         tmod.is_shutdown = saved_is_shutdown
